@@ -84,6 +84,9 @@ pub fn raw_set(bus: &mut Bus, addr: u32, v: u8) -> bool {
     }
 }
 
+pub static PANICS: std::sync::atomic::AtomicU64 = std::sync::atomic::AtomicU64::new(0);
+pub static REBUILDS: std::sync::atomic::AtomicU64 = std::sync::atomic::AtomicU64::new(0);
+
 thread_local! {
     static LAST_PANIC: RefCell<Option<String>> = RefCell::new(None);
 }
@@ -114,7 +117,10 @@ pub fn guarded<T>(f: impl FnOnce() -> T) -> Result<T, String> {
     install_panic_hook();
     match catch_unwind(AssertUnwindSafe(f)) {
         Ok(v) => Ok(v),
-        Err(_) => Err(take_panic()),
+        Err(_) => {
+            PANICS.fetch_add(1, std::sync::atomic::Ordering::Relaxed);
+            Err(take_panic())
+        }
     }
 }
 
@@ -161,8 +167,33 @@ impl Emu {
 
     /// Replace the whole emulator (after a panic or after hidden peripheral state was touched).
     pub fn rebuild(&mut self) {
+        REBUILDS.fetch_add(1, std::sync::atomic::Ordering::Relaxed);
         let base = self.base.clone();
         *self = Emu::new(&base);
+    }
+
+    /// Bring the peripherals back to their reset behaviour without reallocating the emulator:
+    /// I/O register bytes to the baseline, pin levels to 0, timer control decoded from TCR = 0.
+    /// (The timer's sub-tick residue survives; it is invisible unless `update_modules` runs, which
+    /// callers that use this function never do.) Falls back to a rebuild if a panic left the
+    /// module manager borrowed.
+    pub fn soft_reset(&mut self) {
+        let ok = match self.cpu.bus.module_manager.upgrade() {
+            Some(m) => m.try_borrow_mut().is_ok(),
+            None => false,
+        };
+        if !ok {
+            self.rebuild();
+            return;
+        }
+        for idx in [2usize, 4] {
+            let bytes = self.base.regions[idx].1.clone();
+            region_slice_mut(&mut self.cpu.bus, idx).copy_from_slice(&bytes);
+        }
+        self.cpu.bus.io_port_in = [0; 11];
+        let _ = self.cpu.bus.write(0xffff80, 0);
+        let _ = self.drain_msgs();
+        self.dirty_hidden = false;
     }
 
     pub fn drain_msgs(&mut self) -> Vec<String> {
@@ -238,12 +269,26 @@ impl Emu {
         for idx in [0usize, 2, 3, 4] {
             self.diff_region(idx, None, &mut out);
         }
-        if full_dram {
+        if full_dram || self.cpu.bus.verif_write_log.len() >= (1 << 20) {
             self.diff_region(1, None, &mut out);
         } else {
             self.diff_region(1, Some(dram_windows), &mut out);
+            // every address the bus was asked to write since the log was cleared
+            let (lo, ref basebytes) = self.base.regions[1];
+            let cur = &self.cpu.bus.dram;
+            for &a in &self.cpu.bus.verif_write_log {
+                if a >= lo && ((a - lo) as usize) < cur.len() {
+                    let k = (a - lo) as usize;
+                    if cur[k] != basebytes[k] {
+                        out.insert(a, cur[k]);
+                    }
+                }
+            }
         }
         out
+    }
+    pub fn clear_write_log(&mut self) {
+        self.cpu.bus.verif_write_log.clear();
     }
 
     pub fn dram_equals_baseline(&self) -> bool {
